@@ -109,6 +109,7 @@ func driveEqLaws(c *Ctx) error {
 			hash := make([]any, n)
 			lt := make([]any, n)
 			gt := make([]any, n)
+			sb := make([]any, n) // observation: the two numbers have the same binary value (big.Float.Cmp == 0)
 			hs := make([]int, n)
 			hok := make([]bool, n)
 			for i, v := range vals {
@@ -118,6 +119,7 @@ func driveEqLaws(c *Ctx) error {
 			}
 			for i := 0; i < n; i++ {
 				r, e, h, l, g := make([]any, n), make([]any, n), make([]any, n), make([]any, n), make([]any, n)
+				b0 := make([]any, n)
 				for k := 0; k < n; k++ {
 					a, b := vals[i], vals[k]
 					rv := false
@@ -127,10 +129,14 @@ func driveEqLaws(c *Ctx) error {
 					h[k] = hok[i] && hok[k] && hs[i] == hs[k]
 					l[k] = tri(func() cty.Value { return a.LessThan(b) })
 					g[k] = tri(func() cty.Value { return a.GreaterThan(b) })
+					b0[k] = false
+					if a.Type() == cty.Number && b.Type() == cty.Number && a.IsKnown() && b.IsKnown() && !a.IsNull() && !b.IsNull() {
+						b0[k] = a.AsBigFloat().Cmp(b.AsBigFloat()) == 0
+					}
 				}
-				raw[i], eq[i], hash[i], lt[i], gt[i] = r, e, h, l, g
+				raw[i], eq[i], hash[i], lt[i], gt[i], sb[i] = r, e, h, l, g, b0
 			}
-			c.Out.Emit(J{"ev": "eqgroup", "vals": projectArgs(vals), "raw": raw, "eq": eq, "hash": hash, "lt": lt, "gt": gt})
+			c.Out.Emit(J{"ev": "eqgroup", "vals": projectArgs(vals), "raw": raw, "eq": eq, "hash": hash, "lt": lt, "gt": gt, "sb": sb})
 		case "setperm":
 			in := asL(j["input"])
 			seen := map[string]bool{}
